@@ -161,6 +161,13 @@ PPL::Grid::limited_congruence_extrapolation_assign(const Grid& y,
                                                    const Congruence_System& cgs,
                                                    unsigned* tp) {
   Grid& x = *this;
+  if (&cgs == &x.con_sys || &cgs == &y.con_sys) {
+    // `cgs' is the congruence system of one of the two grids, which
+    // may be modified (e.g., minimized) below: work on a copy.
+    const Congruence_System cgs_copy(cgs);
+    x.limited_congruence_extrapolation_assign(y, cgs_copy, tp);
+    return;
+  }
 
   // Check dimension compatibility.
   if (x.space_dim != y.space_dim) {
@@ -370,6 +377,13 @@ PPL::Grid::limited_generator_extrapolation_assign(const Grid& y,
                                                   const Congruence_System& cgs,
                                                   unsigned* tp) {
   Grid& x = *this;
+  if (&cgs == &x.con_sys || &cgs == &y.con_sys) {
+    // `cgs' is the congruence system of one of the two grids, which
+    // may be modified (e.g., minimized) below: work on a copy.
+    const Congruence_System cgs_copy(cgs);
+    x.limited_generator_extrapolation_assign(y, cgs_copy, tp);
+    return;
+  }
 
   // Check dimension compatibility.
   if (x.space_dim != y.space_dim) {
@@ -471,6 +485,13 @@ PPL::Grid::limited_extrapolation_assign(const Grid& y,
                                         const Congruence_System& cgs,
                                         unsigned* tp) {
   Grid& x = *this;
+  if (&cgs == &x.con_sys || &cgs == &y.con_sys) {
+    // `cgs' is the congruence system of one of the two grids, which
+    // may be modified (e.g., minimized) below: work on a copy.
+    const Congruence_System cgs_copy(cgs);
+    x.limited_extrapolation_assign(y, cgs_copy, tp);
+    return;
+  }
 
   // Check dimension compatibility.
   if (x.space_dim != y.space_dim) {
